@@ -92,6 +92,7 @@ type World struct {
 	stalls      *dsync.StallConfig
 	stallsSeen  int64
 	stallFaultAt, stallFaults int
+	stallClosed bool
 	cancels     []*cancelAct
 	pending     []*worldAct // one-shot harness actions (close manager, crash, ...)
 	sigParts    []string
